@@ -124,6 +124,17 @@ pub fn forests(thorough: bool) -> (Vec<Vec<V>>, Value) {
             values.push(V::Obj(vec![("list".into(), V::Arr(vec![V::Null; n])), ("z".into(), V::Bool(false))]));
         }
     }
+    // wide containers whose children are containers themselves
+    for n in [16usize, 127, 128, 129, 130, 256, 1025] {
+        values.push(V::Obj((0..n).map(|i| (format!("c{}", i), V::Arr(vec![V::Null]))).collect()));
+        values.push(V::Obj((0..n).map(|i| (format!("o{}", i), V::Obj(vec![("a".into(), num(i as f64))]))).collect()));
+        values.push(V::Arr((0..n).map(|i| V::Obj(vec![("a".into(), num(i as f64))])).collect()));
+        values.push(V::Arr(vec![V::Arr(vec![V::Str("x".into())]); n]));
+        if n <= 130 {
+            // two levels of wide objects: n objects of n arrays each would be large; use n x 70
+            values.push(V::Obj((0..n).map(|i| (format!("w{}", i), V::Obj((0..70).map(|j| (format!("v{}", j), V::Arr(vec![V::Bool(j % 2 == 0)]))).collect()))).collect()));
+        }
+    }
     // representative level-1 composites used as children at level 2
     let l1s: Vec<V> = vec![
         V::Arr(vec![]), V::Obj(vec![]), V::Arr(vec![num(1.0)]), V::Obj(vec![("a".into(), V::Bool(true))]),
